@@ -108,7 +108,9 @@ def explore(cfg, eng, ctx, sides=("ccube", "xcube")):
             for cell in itertools.product(*[range(e) for e in ish0]):
                 for k in range(data.K):
                     _, _, wsum = data.cell_oracle("mean", ignore, [() for _ in cfg["dims"]], cell, k)
-                    eng.assume(z3.Or(wsum <= 0, wsum > z3.RealVal("1e-8")))
+                    # (the band's edge is the double nearest 1e-8 and the sum is itself rounded: the excluded region
+                    # ends a relative 1e-7 above it, so exact-arithmetic models at the edge are not reported as new)
+                    eng.assume(z3.Or(wsum <= 0, wsum > z3.RealVal("1.0000001e-8")))
 
         def builder(model):
             c = data.case(model)
